@@ -108,6 +108,8 @@ class CallMixin:
             # a call into the outside world (file system, logging): recorded in the concrete effect log of the path
             st.ghost.setdefault("effects", []).append((fv.tag.split(".")[-1], fv.tag, list(args), dict(kwargs)))
             return Opaque(fv.tag + "()")
+        if isinstance(fv, Opaque) and ("method:" + fv.tag.split(".")[-1]) in getattr(self, "opaque_ok", ()):
+            return Opaque(fv.tag + "()")        # a pure observer of an unknown value (e.g. Path.resolve)
         if isinstance(fv, Opaque):
             key = "opaque:" + fv.tag
             c = self.contracts.get(key)
